@@ -124,6 +124,10 @@ pub struct T {
     #[serde(flatten)]
     pub cmd: Cmd,
     pub code: u8,
+    /// `IFS=<value>` is the first line of the command (IFS is shell state: it stays set for the
+    /// rest of the document in both execution modes)
+    #[serde(default)]
+    pub ifs: Option<String>,
 }
 
 #[derive(Clone, Debug, PartialEq, Serialize, Deserialize)]
@@ -413,6 +417,8 @@ fn gen_code(rng: &mut Rng) -> u8 {
     }
 }
 
+const IFS_VALUES: &[&str] = &["0", "1", "01", "0123456789", "", "\n", ":", "x y", "-", "5 ", " \t\n"];
+
 const LITERAL_WORDS: &[&str] = &[
     "{persist_state}",
     "{name}",
@@ -529,16 +535,16 @@ fn gen_case(tier: Tier, k: u64, rng: &mut Rng) -> Case {
                 case.stream = "combined".into();
             }
         }
-        case.tests = vec![T { cmd: Cmd::Chunks { chunks: vec![Chunk { fd: 1, data: p }] }, code: 0 }];
+        case.tests = vec![T { cmd: Cmd::Chunks { chunks: vec![Chunk { fd: 1, data: p }] }, code: 0, ifs: None }];
         return case;
     }
-    let fam = rng.weighted(&[22, 8, 26, 18, 12, 4, 5, 3, 2, 6]);
+    let fam = rng.weighted(&[22, 8, 26, 18, 12, 4, 5, 3, 2, 6, 14]);
     match fam {
         0 => {
             case.family = "render-direct".into();
             case.mode = "render".into();
             let p = gen_payload(rng, case.strip == Some(true), case.keep_crlf == Some(true), true);
-            case.tests = vec![T { cmd: Cmd::Chunks { chunks: vec![Chunk { fd: 1, data: p }] }, code: 0 }];
+            case.tests = vec![T { cmd: Cmd::Chunks { chunks: vec![Chunk { fd: 1, data: p }] }, code: 0, ifs: None }];
         }
         1 => {
             case.family = "crlf-direct".into();
@@ -549,7 +555,7 @@ fn gen_case(tier: Tier, k: u64, rng: &mut Rng) -> Case {
             if rng.bool() {
                 p.push(*rng.pick(&[&b"\r\n"[..], b"ab\r\n", b"\r\r\n", b"\r\n\r\n"]), *rng.pick(&[1u32, 10, 1000, 5000, 20000]));
             }
-            case.tests = vec![T { cmd: Cmd::Chunks { chunks: vec![Chunk { fd: 1, data: p }] }, code: 0 }];
+            case.tests = vec![T { cmd: Cmd::Chunks { chunks: vec![Chunk { fd: 1, data: p }] }, code: 0, ifs: None }];
         }
         2 | 3 => {
             let cram = fam == 3;
@@ -566,7 +572,7 @@ fn gen_case(tier: Tier, k: u64, rng: &mut Rng) -> Case {
             let n = rng.range(1, 6);
             for _ in 0..n {
                 let cmd = if rng.chance(1, 8) { gen_literal(rng, cram) } else { gen_chunks(rng, &case) };
-                case.tests.push(T { cmd, code: gen_code(rng) });
+                case.tests.push(T { cmd, code: gen_code(rng), ifs: None });
             }
         }
         4 => {
@@ -579,7 +585,7 @@ fn gen_case(tier: Tier, k: u64, rng: &mut Rng) -> Case {
             case.strip = if case.strip == Some(true) { None } else { case.strip };
             let n = rng.range(1, 4);
             for _ in 0..n {
-                case.tests.push(T { cmd: gen_literal(rng, cram), code: gen_code(rng) });
+                case.tests.push(T { cmd: gen_literal(rng, cram), code: gen_code(rng), ifs: None });
             }
         }
         5 => {
@@ -590,9 +596,9 @@ fn gen_case(tier: Tier, k: u64, rng: &mut Rng) -> Case {
             }
             case.strip = None;
             let n = tier.pick(1500, 6000) as u32;
-            case.tests.push(T { cmd: Cmd::Concurrent { out_lines: n / 2 + rng.below(n as usize / 2) as u32, err_lines: n / 2 + rng.below(n as usize / 2) as u32 }, code: gen_code(rng) });
+            case.tests.push(T { cmd: Cmd::Concurrent { out_lines: n / 2 + rng.below(n as usize / 2) as u32, err_lines: n / 2 + rng.below(n as usize / 2) as u32 }, code: gen_code(rng), ifs: None });
             if rng.bool() {
-                case.tests.push(T { cmd: Cmd::Status { k: 3 }, code: 0 });
+                case.tests.push(T { cmd: Cmd::Status { k: 3 }, code: 0, ifs: None });
             }
         }
         6 => {
@@ -612,9 +618,9 @@ fn gen_case(tier: Tier, k: u64, rng: &mut Rng) -> Case {
             } else {
                 Cmd::Both { out: big_payload(rng, a, "O"), err: big_payload(rng, b, "E") }
             };
-            case.tests.push(T { cmd, code: gen_code(rng) });
+            case.tests.push(T { cmd, code: gen_code(rng), ifs: None });
             if rng.bool() {
-                case.tests.push(T { cmd: Cmd::Chunks { chunks: vec![Chunk { fd: 1, data: Payload::lit(b"after\n") }] }, code: 0 });
+                case.tests.push(T { cmd: Cmd::Chunks { chunks: vec![Chunk { fd: 1, data: Payload::lit(b"after\n") }] }, code: 0, ifs: None });
             }
         }
         7 => {
@@ -625,7 +631,7 @@ fn gen_case(tier: Tier, k: u64, rng: &mut Rng) -> Case {
             let at = rng.below(n);
             for i in 0..n {
                 let cmd = if i == at { Cmd::Forge { exit_with: *rng.pick(&[0u8, 0, 5]) } } else { Cmd::Chunks { chunks: vec![Chunk { fd: 1, data: Payload::lit(b"real\n") }] } };
-                case.tests.push(T { cmd, code: 0 });
+                case.tests.push(T { cmd, code: 0, ifs: None });
             }
         }
         9 => {
@@ -646,7 +652,39 @@ fn gen_case(tier: Tier, k: u64, rng: &mut Rng) -> Case {
                 } else {
                     *rng.pick(&[0u8, 0, 1, 9, 10, 42, 99, 123, 255])
                 };
-                case.tests.push(T { cmd, code });
+                case.tests.push(T { cmd, code: code, ifs: None });
+            }
+        }
+        10 => {
+            // a hostile IFS (digits, empty, newline, ...) followed by chosen exit codes: neither the
+            // recorded exit code nor the recorded bytes may depend on the user's IFS
+            let cram = rng.chance(1, 3);
+            case.family = if cram { "ifs-cram".into() } else { "ifs-markdown".into() };
+            if cram {
+                case.mode = "cram".into();
+            }
+            case.strip = None;
+            let n = rng.range(1, 4);
+            let at = rng.below(n);
+            for i in 0..n {
+                let cmd = match rng.below(4) {
+                    0 => Cmd::Chunks { chunks: vec![Chunk { fd: 1 + rng.below(2) as u8, data: Payload::lit(format!("out 10 {i}\n").as_bytes()) }] },
+                    1 => Cmd::Status { k: *rng.pick(&[0u8, 10, 101]) },
+                    _ => Cmd::Literal { form: "printf".into(), text: format!("t{i} 100 1 0") },
+                };
+                let code = *rng.pick(&[0u8, 1, 7, 10, 10, 100, 101, 101, 110, 201, 210, 255]);
+                let ifs = if i == at || rng.chance(1, 4) {
+                    if rng.bool() {
+                        // a digit of this very exit code
+                        let d = code.to_string();
+                        Some((d.as_bytes()[rng.below(d.len())] as char).to_string())
+                    } else {
+                        Some(rng.pick(IFS_VALUES).to_string())
+                    }
+                } else {
+                    None
+                };
+                case.tests.push(T { cmd, code, ifs });
             }
         }
         _ => {
@@ -657,7 +695,7 @@ fn gen_case(tier: Tier, k: u64, rng: &mut Rng) -> Case {
             let mut p = Payload::default();
             p.push(b"line of text\r\n", *rng.pick(&[5_000u32, 20_000]));
             p.push(b"\x1b[31mred\x1b[0m\n", 100);
-            case.tests = vec![T { cmd: Cmd::Chunks { chunks: vec![Chunk { fd: 1, data: p }] }, code: 0 }];
+            case.tests = vec![T { cmd: Cmd::Chunks { chunks: vec![Chunk { fd: 1, data: p }] }, code: 0, ifs: None }];
         }
     }
     case
@@ -702,6 +740,9 @@ fn build(t: &T, idx: usize, n_tests: usize, case: &Case, dirs: &Dirs) -> std::io
     let pdir = dirs.root.join("payload");
     std::fs::create_dir_all(&pdir)?;
     let mut lines: Vec<String> = vec![];
+    if let Some(v) = &t.ifs {
+        lines.push(format!("IFS={}", if v.is_empty() { "''".to_string() } else { sh_quote(v) }));
+    }
     let (mut out, mut err, mut merged) = (vec![], vec![], vec![]);
     let mut expect_lines = None;
     let mut exits = false;
@@ -943,7 +984,34 @@ fn check_direct(case: &Case) -> Checked {
     Checked::held().bucket("direct:render_output")
 }
 
+fn ifs_class(case: &Case) -> Option<&'static str> {
+    let vals: Vec<&String> = case.tests.iter().filter_map(|t| t.ifs.as_ref()).collect();
+    if vals.is_empty() {
+        None
+    } else if vals.iter().any(|v| v.chars().any(|c| c.is_ascii_digit())) {
+        Some("digit")
+    } else if vals.iter().any(|v| v.is_empty()) {
+        Some("empty")
+    } else {
+        Some("other")
+    }
+}
+
 fn check_exec(env: &Env, case: &Case) -> Checked {
+    if ifs_class(case).is_some() && case.tests.iter().any(|t| matches!(t.cmd, Cmd::Concurrent { .. })) {
+        return Checked::out_of_scope("the concurrent-writer loops use unquoted expansions: not combined with a user IFS");
+    }
+    let mut c = check_exec_inner(env, case);
+    if let (Some(cls), Verdict::Violated { sig, .. }) = (ifs_class(case), &mut c.verdict) {
+        sig.push_str(&format!("/ifs:{cls}"));
+    }
+    if ifs_class(case).is_some() {
+        c = c.bucket("class:ifs");
+    }
+    c
+}
+
+fn check_exec_inner(env: &Env, case: &Case) -> Checked {
     let cram = case.mode == "cram";
     let keep = case.keep_crlf == Some(true);
     let strip = case.strip == Some(true);
@@ -1035,6 +1103,21 @@ fn check_exec(env: &Env, case: &Case) -> Checked {
                 format!("test {i} never ran (an earlier command ended the script) but has stdout [{}] and status {}", show(&got_out[..got_out.len().min(80)]), o.exit_code),
             );
         }
+        // the exit code first: a wrong code is the more specific symptom when both differ
+        if o.exit_code != ExitStatus::Code(b.code as i32) {
+            let cls = match o.exit_code {
+                ExitStatus::Code(_) => "other-code",
+                ExitStatus::Unknown => "unknown",
+                ExitStatus::Detached => "detached",
+                ExitStatus::Skipped => "skipped",
+                ExitStatus::Timeout(_) => "timeout",
+            };
+            let forged = if matches!(case.tests[i].cmd, Cmd::Forge { .. }) { "/token:divider" } else { "" };
+            return Checked::violated(
+                format!("C13/{mode}/exit-code/got:{cls}{forged}"),
+                format!("test {i}: command ended with {} but {} was recorded", b.code, o.exit_code),
+            );
+        }
         match &b.expect {
             Expect::Exact { out, err, merged } => {
                 let empty: Vec<u8> = vec![];
@@ -1089,20 +1172,6 @@ fn check_exec(env: &Env, case: &Case) -> Checked {
                     return Checked::violated(format!("C13/{mode}/concurrent-writers/{}", if combined { "merged" } else { "separate" }), format!("test {i}: {why}"));
                 }
             }
-        }
-        if o.exit_code != ExitStatus::Code(b.code as i32) {
-            let cls = match o.exit_code {
-                ExitStatus::Code(_) => "other-code",
-                ExitStatus::Unknown => "unknown",
-                ExitStatus::Detached => "detached",
-                ExitStatus::Skipped => "skipped",
-                ExitStatus::Timeout(_) => "timeout",
-            };
-            let forged = if matches!(case.tests[i].cmd, Cmd::Forge { .. }) { "/token:divider" } else { "" };
-            return Checked::violated(
-                format!("C13/{mode}/exit-code/got:{cls}{forged}"),
-                format!("test {i}: command ended with {} but {} was recorded", b.code, o.exit_code),
-            );
         }
         if b.exits && cram {
             ran = false;
@@ -1240,6 +1309,11 @@ fn shrink_case(case: &Case) -> Vec<Case> {
             c.tests[i].code = 0;
             v.push(c);
         }
+        if case.tests[i].ifs.is_some() {
+            let mut c = case.clone();
+            c.tests[i].ifs = None;
+            v.push(c);
+        }
     }
     if case.keep_crlf.is_some() {
         let mut c = case.clone();
@@ -1274,7 +1348,7 @@ fn sample_of(case: &Case) -> Value {
                 Cmd::Both { out, err } => json!(format!("cat {} & cat {} >&2 & wait", out.describe(), err.describe())),
                 Cmd::Forge { exit_with } => json!(format!("forged divider lines for this and all later tests; exit {exit_with}")),
             };
-            json!({"cmd": cmd, "exit": t.code})
+            json!({"ifs": t.ifs, "cmd": cmd, "exit": t.code})
         })
         .collect();
     json!({"family": case.family, "mode": case.mode, "output_stream": case.stream, "keep_crlf": case.keep_crlf, "strip_ansi_escaping": case.strip, "tests": tests})
@@ -1312,6 +1386,8 @@ impl Monitor for C13 {
             ("cfg:strip=Some(true)".into(), f(4, 100)),
             ("sequence>1".into(), f(8, 200)),
             ("family:cram-long".into(), f(2, 100)),
+            ("family:ifs-markdown".into(), f(2, 100)),
+            ("family:ifs-cram".into(), f(1, 60)),
             ("sequence>10".into(), f(2, 100)),
         ];
         p.assumptions = vec![
